@@ -179,6 +179,9 @@ def check_combinators(fx, rep, rule):
     pu = A.func(fx, "mapping", "parse_usize")
     if len(pu) == 1:
         sy, res = ev(fx, rep, rule, "%s/parse_usize" % rule, pu[0])
+        if res is not None and any(len(t) > 2 and t[0] == "call" and t[1] == rp("parse_until") for st, (k, v) in res for src in [v] + [a for a, _ in st.conds] for t in subterms_of(src)):
+            # the digit run taken with the generic scan combinator: judged with that combinator's own body in place of the call
+            sy, res = ev(fx, rep, rule, "%s/parse_usize" % rule, pu[0], opaque=lambda q: opq(q) and q != rp("parse_until"))
         if res is not None:
             clos = set()
 
